@@ -1,7 +1,7 @@
 """C03 — per-property knobs of ./check (see DESIGN.md §6 C03, notes/C03.md)."""
 import re
 THEOREMS_TIED = ["Rustic.Props.C03.every_prefix_consistent", "Rustic.Props.C03.publish_protocol_safe",
-                 "Rustic.Props.C03.prune_protocol_safe", "Rustic.Props.C03.monitor_sound",
+                 "Rustic.Props.C03.prune_protocol_safe", "Rustic.Props.C03.prune_protocol_safe_all_options", "Rustic.Props.C03.prune_full_protocol_safe", "Rustic.Props.C03.pruneOpsFull_in_phase_language", "Rustic.Props.C03.monitor_sound",
                  "Rustic.Props.C03.index_lists_only_written_packs", "Rustic.Props.C03.failed_op_reports_error"]
 
 TRUSTED = [
@@ -15,20 +15,22 @@ TRUSTED = [
     "MemBackend fault injection (crash_at / fail_only) of harness/src/repo.rs",
 ]
 ASSUMPTIONS = [
-    "single-store repositories (hot/cold interruption belongs to C16); instant-delete + early-delete-index excluded (documented unsafe; theorem prune_early_delete_index_unsafe)",
+    "single-store repositories (hot/cold interruption belongs to C16); instant-delete + early-delete-index excluded (documented unsafe; theorems prune_early_delete_index_unsafe, prune_flag_table)",
     "linearisations are the ones observed on MemBackend (the packers' writer threads are real threads)",
     "a blob listed by an index entry is in the pack file (index truthful) — established for the generated states by check(read_data) before the command",
 ]
-RULE = ("one op line per (command, seed): commands backup, forget, prune (non-instant: deletes packs marked by an earlier prune, repacks, marks; options by seed), "
-        "prune-instant (no early-delete-index), merge, copy (into a non-empty destination), rewrite (glob by seed, with forget), repair snapshots (after losing a "
-        "data pack), repair index --read-all, config change (OneConfigBackend), key add, key remove; states from 2-4 backups of an evolving source with small "
+RULE = ("one op line per (command, seed): commands backup, forget, prune (non-instant: deletes packs marked by an earlier prune, repacks, marks; repack-all / fast-repack / max-unused / keep-delete 0 or one day by seed), "
+        "prune-instant (no early-delete-index), prune-early (early-delete-index WITHOUT instant-delete: inside the property, inert in the code; for the three prune "
+        "commands EVERY operation is a crash and a fault point also in quick), merge, copy (into a non-empty destination), rewrite (glob by seed, with or without forget), repair snapshots (after losing a "
+        "data pack), repair index --read-all, repair index (without --read-all, on the state an interrupted prune leaves: packs listed by two index files), config change (OneConfigBackend), key add, key remove; states from 2-4 backups of an evolving source with small "
         "pack sizes; plus `c03 big`: a backup of more than MAX_COUNT (50 000) tiny blobs so that the indexer auto-saves an index file mid-run, faults on the pack "
         "writes / index write around the auto-save, oracles: every listed pack exists, check(read_data), retry of the backup is clean and reads back. The trace (embedded at generation time from a real run) is judged by the Lean monitor at EVERY prefix; "
         "exec re-runs the real command with crash_at=k and fail_only=k (quick: ~12 sampled k incl. first/last; thorough: every k) and checks the stored state "
         "with check(read_data) + read-back of every visible snapshot. Non-trivial = trace with at least 2 operations.")
 EXPLANATION = ("Theorems: operation lemmas (writePack always; writeIndex iff listed packs stored; writeSnapshot iff closure indexed; removeIndex/removePack "
                "under coverage premises); every prefix of a step-wise safe run is consistent; protocol theorems for backup/copy/merge/rewrite/repair-snapshots "
-               "(packs -> index -> snapshots -> removals), forget, config/key, prune (writes -> old index files -> old packs); negative results with witnesses "
+               "(packs -> index -> snapshots -> removals), forget, config/key, prune (writes -> old index files -> old packs, for every covered combination of instant_delete x early_delete_index: pruneOpsOpt models the "
+               "two conditions of prune_repository, early_delete_index alone is the safe order); negative results with witnesses "
                "(repair-snapshots order before the fix, repair-index --read-all, early-delete-index, index-before-pack); a failed op stops the sequential protocol in a "
                "prefix state; on the packer/file-writer/indexer actor model, for every schedule (interleaving of all stages of all writers and choice of failing "
                "operations): index_lists_only_written_packs (every stored index file, auto-saved or final, lists only written packs) and failed_op_reports_error "
